@@ -274,8 +274,12 @@ func c08Families(tier string) []c08Family {
 		{"m2-d1", 2, 1, all},
 	}
 	if tier == "thorough" {
-		fs = append(fs, c08Family{"m3-d1-key", 3, 1, key}, c08Family{"m2-d2-key", 2, 2, key}, c08Family{"m1-d3-key", 1, 3, key})
-		fs = append(fs, c08Family{"m3-d1-small", 3, 1, key[:6]})
+		// sizes: m3-d1 over 12 key forms 2.0 M, m2-d2 over 6 forms 2.3 M, m1-d3 over 6 forms 0.5 M,
+		// m3-d1 over the first 9 added forms 0.4 M (the full key list at depth 2 / 3 would be 10^8)
+		fs = append(fs, c08Family{"m3-d1-key12", 3, 1, key[:12]}, c08Family{"m2-d2-key6", 2, 2, key[:6]}, c08Family{"m1-d3-key6", 1, 3, key[:6]})
+		if len(key) > 12 {
+			fs = append(fs, c08Family{"m3-d1-added", 3, 1, key[12:]})
+		}
 	}
 	return fs
 }
@@ -349,7 +353,7 @@ func init() {
 					if !c.Mine(idx) {
 						continue
 					}
-					if k&0x3FF == 0 && c.Expired() {
+					if c.Due(0x3FF) {
 						c.Note("deadline hit in family " + fam.name)
 						return
 					}
